@@ -206,6 +206,20 @@ func main() {
 						report("concurrent write produced a different output than the sequential write", key)
 					}
 					count("write")
+					// the same through a per-call options value built by hand (nothing but the format set): the
+					// library's defaults stand in for what is unset, for this call only; afterwards the owner
+					// customises whatever its own value now holds, which is nobody else's business
+					own := &writer.Options{Format: f}
+					buf.Reset()
+					if err := writer.New().WriteStreamWithOptions(mkDoc(i), nopCloser{&buf}, own); err != nil {
+						report("concurrent write with hand-built per-call options failed", err.Error())
+					} else if normalize(buf.Bytes()) != refs[key].out {
+						report("concurrent write with hand-built per-call options produced a different output than the sequential write", key)
+					}
+					if own.RenderOptions != nil {
+						own.RenderOptions.Indent = 1 + w%3
+					}
+					count("write-own-options")
 				case 1: // parse an independent document
 					in := inputs[key]
 					if it%2 == 1 {
